@@ -17,6 +17,7 @@ package generator
 //@     invariant [C13] len(quoted) == len(values) && (forall j int :: 0 <= j && j < #i ==> quoted[j] == jsonQuote(values[j]))
 
 //@ func sanitizedMessage(s string) string
+//@   verify [C07]
 //@   ensures [C13:message-literal] result == jsonQuote(replaceAll(s, "\"", "'"))
 
 //@ func profileName(profile profile.Profile) string
@@ -32,6 +33,16 @@ package generator
 //@   ensures [C13:raw-or-quoted] (contains(pattern, "`") ==> result == jsonQuote(pattern)) && (!contains(pattern, "`") ==> result == "`" + pattern + "`")
 
 // ---- invented names (C07) -----------------------------------------------------------------------------------
+
+// every listed rule is generated under each level that lists it: violations, then warnings, then infos, nothing dropped or merged
+//@ func ruleSet(prof profile.Profile) []profile.Rule
+//@   ensures [C03,C12:every-listing-of-every-level] result == concat(concat(prof.Violation, prof.Warning), prof.Info)
+//@   loop 1 /* for _, r := range prof.Violation */
+//@     invariant [C03] acc == take(prof.Violation, #i)
+//@   loop 2 /* for _, r := range prof.Warning */
+//@     invariant [C03] acc == concat(prof.Violation, take(prof.Warning, #i))
+//@   loop 3 /* for _, r := range prof.Info */
+//@     invariant [C03] acc == concat(concat(prof.Violation, prof.Warning), take(prof.Info, #i))
 
 //@ func packageName(profile profile.Profile) string
 //@   verify [C13]
@@ -236,6 +247,7 @@ package generator
 // ---- prefixes (C15) ---------------------------------------------------------------------------------------------------
 
 //@ func IriExpanderFrom(profile profile.Profile) *misc.IriExpander
+//@   verify [C01,C02,C06]
 //@   ensures [C15:defaults-overlaid-by-profile-prefixes] result != nil && (forall k string :: (has(profile.Prefixes, k) ==> deref(result).Context[k] == box(string, old(profile.Prefixes[k]))) && (!has(profile.Prefixes, k) ==> (has(deref(result).Context, k) == old(has(contexts.DefaultAMFContext, k)) && deref(result).Context[k] == old(contexts.DefaultAMFContext[k]))))
 //@   ensures [C15:fresh-context] ref(deref(result).Context) > old(alloc)
 //@   loop 1 /* for n, p := range profile.Prefixes */
